@@ -8,9 +8,11 @@ from .pipe import S
 with open(os.path.join(core.SPEC, "dev_flags.json")) as _f:
     DEV = json.load(_f)
 
-SUPI = {"imsi": "imsi-{P}1", "imsiempty": "imsi-", "nodash": "imsi{P}1", "slash": "imsi-{P}1/../x", "nai": "nai-{P}1@x"}
+SUPI = {"imsi": "imsi-{P}1", "imsiempty": "imsi-", "nodash": "imsi{P}1", "slash": "imsi-{P}1/../x", "nai": "nai-{P}1@x",
+        "long": "imsi-{P}1" + "7" * 300}
 PLMN = {"ok": {"mcc": "208", "mnc": "93"}, "ok3": {"mcc": "208", "mnc": "093"}, "shortmcc": {"mcc": "20", "mnc": "93"},
-        "shortmnc": {"mcc": "208", "mnc": "9"}, "emptymnc": {"mcc": "208", "mnc": ""}}
+        "shortmnc": {"mcc": "208", "mnc": "9"}, "emptymnc": {"mcc": "208", "mnc": ""},
+        "multibyte": {"mcc": "\u20ac", "mnc": "93"}}
 PDU = {
     "full": {"chargingId": 7, "pduSessionInformation": {"pduSessionID": 1, "dnnId": "internet",
              "networkSlicingInfo": {"sNSSAI": {"sst": 1, "sd": "010203"}}}},
@@ -91,8 +93,8 @@ def to_case(hist, bid):
 def cfg(tier):
     c = dict(
         Eps=S("create", "update", "release", "recharge"),
-        Supis=S("imsi", "nodash", "imsiempty", "nai") if tier == "quick" else S("imsi", "nodash", "imsiempty", "nai", "slash"),
-        Nfcis=S("present", "absent"), Plmns=S("absent", "ok", "ok3", "shortmcc", "shortmnc", "emptymnc"),
+        Supis=S("imsi", "nodash", "imsiempty", "nai", "slash") if tier == "quick" else S("imsi", "nodash", "imsiempty", "nai", "slash", "long"),
+        Nfcis=S("present", "absent"), Plmns=S("absent", "ok", "ok3", "shortmcc", "shortmnc", "emptymnc", "multibyte"),
         Pdus=S("absent", "full", "no_info", "no_slice", "no_snssai"),
         Usages=S("none", "online_req", "online_noreq", "offline"), Trigs=S("none", "partial", "final"),
         Rparams=S("u_1", "u", "u_x", "_", "u_1_2"), Priors=S("fresh", "created", "debit"), Notifys=S("present", "absent"),
